@@ -40,7 +40,7 @@ ASSUMPTIONS = [
     "token classes are disjoint (a token is not at once a keyword, a variable name, a hedge name and a term name)",
     "resource exhaustion (recursion depth of very long antecedents) is not decided",
 ]
-FLOORS = {"X9": 3, "X8": 6, "PD": 4, "PD2": 4, "LD": 8, "F1": 2, "X2": 30, "X4": 6, "O9": 4}
+FLOORS = {"C1-load": 1, "X9": 3, "X8": 6, "PD": 4, "PD2": 4, "LD": 8, "F1": 2, "X2": 30, "X4": 6, "O9": 4}
 
 ALLOWED = {"SyntaxError", "ValueError", "KeyError", "LookupError"}
 
@@ -445,8 +445,11 @@ def rule_parse_semantics(check: Check, rule: str = "F1") -> bool:
     try:
         ex = ObjExec(p, "Rule.parse")
         ex.globals.update({"nan": float("nan"), "inf": float("inf")})
+        # every sequence up to the depth, and every continuation by up to two more tokens of complete rules (what follows the weight, the end state)
+        complete = [("if", "x", "then", "x", "with", "0.25"), ("if", "x", "x", "then", "x", "x", "with", "0.25"), ("if", "x", "then", "x", "with", "x")]
+        longer = [c + extra for c in complete for k in range(0, 3) for extra in itertools.product(alphabet, repeat=k)]
         for k in range(0, depth + 1):
-            for tokens in itertools.product(alphabet, repeat=k):
+            for tokens in itertools.chain(itertools.product(alphabet, repeat=k), longer if k == depth else ()):
                 n += 1
                 ex.steps = 0
                 me = MObj("Rule", {"antecedent": MObj("<part>", {"text": "<old antecedent>"}), "consequent": MObj("<part>", {"text": "<old consequent>"}), "weight": 0.5,
@@ -480,7 +483,7 @@ def rule_parse_semantics(check: Check, rule: str = "F1") -> bool:
                          ("rejects", "every other text is rejected with SyntaxError (ValueError for a weight that is not a number)"),
                          ("no-internal-error", "no text ends in an internal error")):
         hit = bad.get(aspect)
-        check.require(hit is None, rule, f"Rule.parse/{aspect}", f"{good} ({n} token sequences of length <= {depth})" if hit is None else hit, loc(fn), {"sequences": n},
+        check.require(hit is None, rule, f"Rule.parse/{aspect}", f"{good} ({n} token sequences: all of length <= {depth}, and complete rules continued by up to two tokens)" if hit is None else hit, loc(fn), {"sequences": n},
                       exhaustive=True, cases=n)
     return True
 
@@ -979,6 +982,9 @@ def run(check: Check) -> None:
     pushdown.parse_postfix(check)
     constant_subscripts(check)
     load_atomicity(check)
+    from .c19 import load_then_evaluate
+
+    load_then_evaluate(check)  # "either succeeds - and then ... the rule evaluated": what Antecedent.load accepts, activation_degree evaluates
     check.exhaustive_parts += ["parser automata: product with the grammar automaton over all token classes and end states"]
 
 
